@@ -92,6 +92,12 @@ def concretise(c, rnd):
     r = geom.ref_element(c["refkind"], c["ref"], "r", rnd)
     ref = rnd.choice(["#r", "^"])
     k = c["kind"]
+    if f == "prevdefer":
+        gap = " " + q(c["gap"])
+        other = '<rect id="b" x="-30" y="40" width="2" height="2"/>'
+        later = f'<rect id="z" x="50" y="-40" width="{q(c["w"])}" height="{q(c["h"])}"/>'
+        subj = f'<rect id="s" xy="^|{c["dir"]}{gap}" wh="#z"/>'
+        return f"<svg>{r}{subj}{other}{later}</svg>"
     if f == "dirdelta":
         gap = " " + q(c["gap"])
         dd = rnd.choice([f'dw="{q(c["dw"])}" dh="{q(c["dh"])}"', f'dwh="{q(c["dw"])} {q(c["dh"])}"'])
